@@ -158,8 +158,8 @@ type ListSlot struct {
 	Depth  int
 }
 
-func (l ListSlot) Name() string          { return l.PType.Name() + "." + l.PType.Field(l.Field).Name }
-func (l ListSlot) Value() reflect.Value  { return l.Parent.Field(l.Field) }
+func (l ListSlot) Name() string           { return l.PType.Name() + "." + l.PType.Field(l.Field).Name }
+func (l ListSlot) Value() reflect.Value   { return l.Parent.Field(l.Field) }
 func (l ListSlot) ElemType() reflect.Type { return l.PType.Field(l.Field).Type.Elem() }
 
 // WalkSlots visits every node slot and list slot below root (root's own
